@@ -335,6 +335,93 @@ func TestC06(t *testing.T) {
 		return f
 	})
 
+	// (e) wide statements: many sibling terms at one nesting level (column/value lists, IN lists, collection literals,
+	// SET lists, textual batches). Width is not depth: they are plain, so idempotent, unless one of the siblings is
+	// a planted now()/uuid().
+	runProp(t, rec, "wide", perShard(evid.Pick(600, 40000)), func(rt *rapid.T) c06Case {
+		n := rapid.IntRange(2, 700).Draw(rt, "width")
+		if rapid.Bool().Draw(rt, "aroundlimit") {
+			n = rapid.IntRange(120, 140).Draw(rt, "widthnearlimit")
+		}
+		plant := -1
+		if rapid.IntRange(0, 2).Draw(rt, "planted") == 0 {
+			plant = rapid.IntRange(0, n-1).Draw(rt, "plantat")
+		}
+		term := func(i int) string {
+			if i == plant {
+				return rapid.SampledFrom([]string{"now()", "uuid()", "system.now()", "NOW ( )"}).Draw(rt, "call")
+			}
+			return rapid.SampledFrom([]string{"%d", "'s%d'", "?", ":p%d", "0x0%d", "%d.5", "-%d"}).Draw(rt, "lit")
+		}
+		item := func(i int) string {
+			f := term(i)
+			if strings.Contains(f, "%d") {
+				return fmt.Sprintf(f, i)
+			}
+			return f
+		}
+		var sb strings.Builder
+		shape := rapid.SampledFrom([]string{"values", "in", "set-literal", "list-literal", "map-literal", "set-list", "tuple", "batch"}).Draw(rt, "shape")
+		switch shape {
+		case "values":
+			sb.WriteString("INSERT INTO ks.t (")
+			for i := 0; i < n; i++ {
+				fmt.Fprintf(&sb, "c%d%s", i, map[bool]string{true: ", ", false: ""}[i < n-1])
+			}
+			sb.WriteString(") VALUES (")
+			for i := 0; i < n; i++ {
+				sb.WriteString(item(i) + map[bool]string{true: ", ", false: ""}[i < n-1])
+			}
+			sb.WriteString(")")
+		case "in":
+			sb.WriteString("UPDATE ks.t SET v = 1 WHERE k IN (")
+			for i := 0; i < n; i++ {
+				sb.WriteString(item(i) + map[bool]string{true: ", ", false: ""}[i < n-1])
+			}
+			sb.WriteString(")")
+		case "set-literal", "list-literal", "tuple":
+			open, cl := map[string]string{"set-literal": "{", "list-literal": "[", "tuple": "("}[shape], map[string]string{"set-literal": "}", "list-literal": "]", "tuple": ")"}[shape]
+			sb.WriteString("INSERT INTO ks.t (k, c) VALUES (1, " + open)
+			for i := 0; i < n; i++ {
+				sb.WriteString(item(i) + map[bool]string{true: ", ", false: ""}[i < n-1])
+			}
+			sb.WriteString(cl + ")")
+		case "map-literal":
+			sb.WriteString("UPDATE ks.t SET m = {")
+			for i := 0; i < n; i++ {
+				fmt.Fprintf(&sb, "%d: %s%s", i, item(i), map[bool]string{true: ", ", false: ""}[i < n-1])
+			}
+			sb.WriteString("} WHERE k = 1")
+		case "set-list":
+			sb.WriteString("UPDATE ks.t SET ")
+			for i := 0; i < n; i++ {
+				fmt.Fprintf(&sb, "c%d = %s%s", i, item(i), map[bool]string{true: ", ", false: ""}[i < n-1])
+			}
+			sb.WriteString(" WHERE k = 1")
+		case "batch":
+			sb.WriteString("BEGIN BATCH ")
+			for i := 0; i < n; i++ {
+				fmt.Fprintf(&sb, "INSERT INTO ks.t (k, v) VALUES (%d, %s); ", i, item(i))
+			}
+			sb.WriteString("APPLY BATCH")
+		}
+		c := c06Case{Text: sb.String(), Want: "true", Why: "wide:" + shape, Variants: []string{sb.String() + ";", strings.ToLower(sb.String())}}
+		if plant >= 0 {
+			c.Want, c.Planted = "false", []string{"now()@wide-" + shape}
+		}
+		rec.Case(fmt.Sprintf("W:%s:%d:%d", shape, n, plant), "wide:"+shape, map[bool]string{true: "wide:planted", false: "wide:plain"}[plant >= 0], map[bool]string{true: "wide:>128", false: "wide:<=128"}[n > 128])
+		if rec.Evals()%200 == 0 && n < 12 {
+			rec.Sample(c)
+		}
+		return c
+	}, func(c c06Case) *evid.Fail {
+		f := c06Check(c)
+		if f != nil {
+			f.Msg = trunc(f.Msg)
+		}
+		return f
+	})
+
 	// (d) totality on arbitrary input
 	runProp(t, rec, "arbitrary", perShard(evid.Pick(80000, 3200000)), func(rt *rapid.T) c06Case {
 		txt := c06Arbitrary(rt)
